@@ -9,6 +9,7 @@ import (
 	"time"
 
 	"github.com/istio-ecosystem/authservice/zzverif/hidden"
+	"github.com/istio-ecosystem/authservice/zzverif/ev"
 	"github.com/istio-ecosystem/authservice/zzverif/seqx"
 	"github.com/istio-ecosystem/authservice/zzverif/world"
 )
@@ -579,4 +580,36 @@ func (o hOpts) model(monitors ...hMonitor) seqx.Model {
 		Canon:   canon,
 		MaxDev:  o.MaxDev,
 	}
+}
+
+
+// debugLogTail runs one more search per given spec with log_level all:debug (set up as cmd/main.go does) and adds it
+// to the run's counters. Called through defer, so that it comes last: the logging set-up is process-wide and cannot be
+// undone. What runs only at debug level (the logging round tripper around provider requests, the formatting of logged
+// values, whatever a log statement calls) must not change anything a property speaks about.
+func debugLogTail(run *ev.Run, depth int, build func(world.Spec) seqx.Model, specs ...world.Spec) {
+	var levels [][]int
+	t0 := time.Now()
+	defer func() { run.Extra["wall_s_log=debug"] = int(time.Since(t0).Seconds()) }()
+	for _, spec := range specs {
+		if run.Expired() {
+			run.Cap("debug-logging search not started")
+			break
+		}
+		spec.DebugLog = true
+		m := build(spec)
+		m.MaxDepth = depth
+		st := seqx.Explore(run, m)
+		run.States += st.States
+		run.Transitions += st.Transitions
+		run.Traces += st.Histories
+		run.Evals += st.Transitions
+		if !st.Complete {
+			run.Cap(fmt.Sprintf("debug-logging search store=%s stopped at depth %d of %d", spec.Store, st.DepthDone, depth))
+		}
+		levels = append(levels, st.LevelSizes)
+	}
+	run.Rule += fmt.Sprintf("; last, %d configuration(s) once more with log_level all:debug (depth %d, quick alphabet)", len(specs), depth)
+	run.Extra["levels_log=debug"] = levels
+	run.Extra["depth_log=debug"] = depth
 }
